@@ -634,6 +634,68 @@ func cbPendingQueue(m *meta, r *rand.Rand, round int) {
 	m.count("cb_pending_queue")
 }
 
+// cbContended (C20, real clock): the two moments at which a SetWithCallback meets contention.
+// (a) The drain token is busy when the call is made and stays busy for longer than the TTL: the write commits - and its
+//     deadline is stamped - only when the token is released, so the callback may not run before release + TTL, and
+//     when it runs the entry it was registered for is past its deadline.
+// (b) The shard's write lock is held while the expiry timer elapses: however long the timer goroutine waits for the
+//     lock, the callback of one write runs once.
+func cbContended(m *meta, r *rand.Rand, round int) {
+	kioshun.VerifSetClock(false, 0)
+	pol := pick(r, []kioshun.EvictionPolicy{kioshun.LRU, kioshun.SieveTinyLFU, kioshun.FIFO, kioshun.LFU})
+	ctx := fmt.Sprintf("callback scenario contended round %d policy %v", round, pol)
+	watch(ctx)
+	defer unwatch()
+	{
+		c, err := kioshun.New[int, int](kioshun.Config{MaxSize: 64, ShardCount: 1, EvictionPolicy: pol})
+		must(err)
+		ttl := 60 * time.Millisecond
+		var firedAt atomic.Int64
+		var early atomic.Int64
+		c.VerifHoldDrain(0, true)
+		returned := make(chan error, 1)
+		go func() {
+			returned <- c.SetWithCallback(1, 10, ttl, func(k, v int) {
+				firedAt.Store(time.Now().UnixNano())
+				if _, exp, _, ok := c.VerifPeek(1); ok && exp > c.VerifNow() {
+					early.Store(exp - c.VerifNow())
+				}
+			})
+		}()
+		time.Sleep(90 * time.Millisecond)
+		released := time.Now()
+		c.VerifHoldDrain(0, false)
+		select {
+		case <-returned:
+		case <-time.After(3 * time.Second):
+			m.violate("C07", ctx+": SetWithCallback did not return within 3 s after the drain token was released", ctx)
+		}
+		time.Sleep(ttl + 60*time.Millisecond)
+		if f := firedAt.Load(); f == 0 {
+			m.violate("C20", fmt.Sprintf("%s: SetWithCallback(1,10,%v) committed when the drain token was released; %v later, untouched, its callback has not run", ctx, ttl, ttl+60*time.Millisecond), ctx)
+		} else if d := time.Duration(f - released.UnixNano()); d < ttl-time.Millisecond || early.Load() > 0 {
+			m.violate("C20", fmt.Sprintf("%s: SetWithCallback(1,10,%v) was called while the drain token was busy and committed when it was released 90 ms later; its callback ran %v after the release, when the entry still had %v to live: a callback never fires before its write's deadline", ctx, ttl, d, time.Duration(early.Load())), ctx)
+		}
+		c.Close()
+	}
+	{
+		c, err := kioshun.New[int, int](kioshun.Config{MaxSize: 64, ShardCount: 1, EvictionPolicy: pol})
+		must(err)
+		var runs atomic.Int64
+		c.SetWithCallback(1, 10, 40*time.Millisecond, func(k, v int) { runs.Add(1) })
+		time.Sleep(20 * time.Millisecond)
+		c.VerifHoldShard(0, true)
+		time.Sleep(60 * time.Millisecond)
+		c.VerifHoldShard(0, false)
+		time.Sleep(150 * time.Millisecond)
+		if n := runs.Load(); n != 1 {
+			m.violate("C20", fmt.Sprintf("%s: SetWithCallback(1,10,40ms), never touched again; the shard's write lock was held from 20 ms to 80 ms (the timer elapsed inside that window); the callback ran %d times: exactly once per write", ctx, n), ctx)
+		}
+		c.Close()
+	}
+	m.count("cb_contended")
+}
+
 func cbCloses(m *meta, r *rand.Rand, round int) {
 	kioshun.VerifSetClock(false, 0)
 	pol := pick(r, []kioshun.EvictionPolicy{kioshun.LRU, kioshun.SieveTinyLFU, kioshun.FIFO})
@@ -757,6 +819,10 @@ func streamCb(o opts) {
 		}
 		if kind == 17 {
 			cbPendingQueue(m, r, round)
+			continue
+		}
+		if kind == 16 {
+			cbContended(m, r, round)
 			continue
 		}
 		if kind > 14 {
